@@ -26,7 +26,6 @@ fn spell(rng: &mut Rng, root: &Path, p: &str) -> String {
     match rng.below(40) {
         0..=7 => format!("{}/{}", root.to_string_lossy(), p),
         11..=14 => format!("./{p}"),
-        3 => format!("./{p}"),
         4 => p.replace('/', "//"),
         5 => format!("../{p}"),
         6 => format!("{}/../{}", root.to_string_lossy(), p),
